@@ -35,25 +35,27 @@ Theorem C16_lexical_scope :
 Proof. exact lexical_scope. Qed.
 Print Assumptions C16_lexical_scope.
 
-(* C16_scope outside the finding classes: every element carries
+(* C16_scope, full strength (no side condition; the three finding classes of
+   the first round - raw-vs-local duplicate test, p:xmlns, duplicate
+   declarations - are repaired in /repo by df982ff and 8f1ed74 and the model
+   mirrors the repaired code): for EVERY token stream every element carries
    resolve(prefix, declarations of its own tag :: declarations of its ancestors
-   in the resulting tree) - default namespace for unprefixed elements, xml and
-   xmlns fixed, empty declaration un-binds - provided none of those tags is in
-   class 8 (raw-vs-local duplicate test) or declares one name twice *)
-Theorem C16_scope_outside_finding :
+   in the resulting tree) - the default namespace for unprefixed elements, xml
+   and xmlns fixed, an empty declaration un-binds, the first of duplicate
+   declarations counts *)
+Theorem C16_scope :
   forall rts, Forall (all_elems name_scoped []) (parse_raw rts).
-Proof. exact scope_outside_finding. Qed.
-Print Assumptions C16_scope_outside_finding.
+Proof. exact scope_all. Qed.
+Print Assumptions C16_scope.
 
-(* C16_attrs outside the finding classes: the attributes of every element are
-   the first-wins de-duplication by expanded name of the non-declaration
-   attributes of its tag, unprefixed ones in no namespace, prefixed ones
-   resolved like element prefixes - provided the tag is additionally outside
-   class 9 (p:xmlns) *)
-Theorem C16_attrs_outside_finding :
+(* C16_attrs, full strength: for EVERY token stream the attributes of every
+   element are the first-wins de-duplication by expanded name of the
+   non-declaration attributes of its tag (p:xmlns included), unprefixed ones in
+   no namespace, prefixed ones resolved like element prefixes *)
+Theorem C16_attrs :
   forall rts, Forall (all_elems attrs_scoped []) (parse_raw rts).
-Proof. exact attrs_outside_finding. Qed.
-Print Assumptions C16_attrs_outside_finding.
+Proof. exact attrs_all. Qed.
+Print Assumptions C16_attrs.
 
 (* the rule does not depend on the order of the attributes: permuting a tag's
    attributes leaves the set of surviving expanded names unchanged *)
@@ -63,33 +65,26 @@ Theorem C16_attrs_order_independent :
 Proof. exact spec_attrs_order_independent. Qed.
 Print Assumptions C16_attrs_order_independent.
 
-(* the map a well-behaved tag pushes is exactly what the tag declares *)
+(* the map a tag pushes is exactly what the tag declares - for every tag *)
 Theorem C16_tag_map_is_its_declarations :
-  forall raws, scope_ok raws = true -> forall k, nm_get (dmap raws) k = tag_binding k raws.
+  forall raws k, nm_get (dmap raws) k = tag_binding k raws.
 Proof. exact dmap_binding. Qed.
 Print Assumptions C16_tag_map_is_its_declarations.
 
-(* findings (DESIGN 6.3 rows 8, 9 and the duplicate-declaration variant of 8):
-   the unconditional statements are false for the model of the code as it is *)
-Theorem C16_attrs_refuted_raw_vs_local_duplicate_test :
-  ~ Forall (all_elems attrs_strict []) (parse_raw w8) /\
-  Forall (all_elems attrs_strict []) (parse_raw w8').
-Proof. exact attrs_refuted_raw_vs_local. Qed.
-Print Assumptions C16_attrs_refuted_raw_vs_local_duplicate_test.
+(* the witnesses of the repaired findings now give the trees the property asks for *)
+Theorem C16_former_witnesses_repaired :
+  map erase (parse_raw w8) =
+    [XElem (mkq None [] [97]) [mka (mkq (Some [112]) [] [120]) [49]; mka (mkq None [] [120]) [50]] []]%N /\
+  map erase (parse_raw w9) =
+    [XElem (mkq None [] [97]) [mka (mkq (Some [112]) [] [120;109;108;110;115]) [118]; mka (mkq None [] [121]) [49]] []]%N /\
+  map erase (parse_raw wdup) =
+    [XElem (mkq None [] [97]) [] [XElem (mkq (Some [112]) [117] [98]) [] []]]%N.
+Proof. exact former_witnesses. Qed.
+Print Assumptions C16_former_witnesses_repaired.
 
-Theorem C16_attrs_refuted_prefixed_xmlns_dropped :
-  ~ Forall (all_elems attrs_strict []) (parse_raw w9).
-Proof. exact attrs_refuted_prefixed_xmlns. Qed.
-Print Assumptions C16_attrs_refuted_prefixed_xmlns_dropped.
-
-Theorem C16_scope_refuted_duplicate_declaration_last_wins :
-  ~ Forall (all_elems name_strict []) (parse_raw wdup).
-Proof. exact scope_refuted_duplicate_declaration. Qed.
-Print Assumptions C16_scope_refuted_duplicate_declaration_last_wins.
-
-(* non-vacuity: <r xmlns="d" xmlns:p="u"><p:a p:x="1" x="2" xmlns:p="v"/><b xmlns=""/></r>
-   satisfies the side conditions, and the tree carries d, v (shadowing), no
-   namespace for the unprefixed attribute, and the un-declared default *)
+(* non-vacuity: <r xmlns="d" xmlns:p="u"><p:a p:x="1" y="2" xmlns:p="v"/><b xmlns=""/></r>
+   : the tree carries d, v (shadowing), no namespace for the unprefixed
+   attribute, and the un-declared default *)
 Definition ex_doc : list rtoken :=
   [RTag StartTag [114] [([120;109;108;110;115], [100]); ([120;109;108;110;115;58;112], [117])];
    RTag EmptyTag [112;58;97] [([112;58;120], [49]); ([121], [50]); ([120;109;108;110;115;58;112], [118])];
@@ -101,6 +96,5 @@ Example C16_nonvacuous :
   [XElem (mkq None [100] [114]) []
      [XElem (mkq (Some [112]) [118] [97])
             [mka (mkq (Some [112]) [118] [120]) [49]; mka (mkq None [] [121]) [50]] [];
-      XElem (mkq None [] [98]) [] []]]%N /\
-  forallb (fun t => match t with RTag _ _ a => attrs_ok a | _ => true end) ex_doc = true.
-Proof. vm_compute. split; reflexivity. Qed.
+      XElem (mkq None [] [98]) [] []]]%N.
+Proof. vm_compute. reflexivity. Qed.
